@@ -362,9 +362,6 @@ theorem L_of_M {s : List Char} {r : Rx} {i j : Nat} (h : M s.toArray r i j) :
   | bol => intro ha; simp [anchorFree] at ha
   | eol => intro ha; simp [anchorFree] at ha
 
-/-- what `parse` yields for `^(?:p)$` when it yields `r` for `p` (checked on examples in `Theorems/C10`) -/
-def anchored (r : Rx) : Rx := .seq (.seq (.seq .eps .bol) r) .eol
-
 theorem piece_all (s : List Char) : piece s 0 s.length = s := by simp [piece]
 
 theorem split3 (s : List Char) {i j : Nat} (hij : i ≤ j) (_hj : j ≤ s.length) :
